@@ -427,6 +427,14 @@ def mon_expect(run, script, il, iab, ml):
             if handle_of(f).get('cf') != '0':
                 run.violation('hop index not reset at the end of a packet', script)
             hopk = 0
+        elif kind == 'nohop' and P == 'C16':
+            run.cov['monitor_checks'] += 1
+            f = irqs[-1] if irqs else {}
+            w6 = [e for e in spi_entries(f.get('spi')) if e['kind'] == 'W' and e['reg'] == 6]
+            if w6:
+                run.violation('a hop was performed between two packets although the chip raised no channel-change event (a flag of the previous packet was left pending)', script)
+            if handle_of(f).get('cf') != '0':
+                run.violation('hop index moved between two packets without a channel-change event', script)
         elif kind == 'hopend' and P == 'C16' and relisted:
             hoplist, relisted = relisted, None
             hopk = 0
@@ -460,7 +468,9 @@ def mon_expect(run, script, il, iab, ml):
             rx = [c for c in cb_entries(f.get('cb')) if c['kind'] == 'rx']
             if data and (len(rx) != 1 or rx[0]['data'] != data):
                 run.violation('packet pending across handle re-creation not delivered intact', script, {'expected': data, 'got': [c['data'] for c in rx]})
-            if not data and rx:
+            if not data and rx and len(args) > 1 and args[1] == 'crc':
+                run.violation('fresh handle delivered a pending packet that failed its CRC (the handle that never slept drops it)', script)
+            elif not data and rx:
                 run.violation('fresh handle delivered a packet although none was pending', script)
         elif kind == 'freq' and P == 'C12':
             run.cov['monitor_checks'] += 1
@@ -621,6 +631,10 @@ def mon_decode(run, script, il, iab, ml):
         if not is_op(l):
             if l.startswith('reset') or l.startswith('env chiprand') or l.startswith('env chip s'):
                 frf = None
+            m = re.match(r'chip s=([0-9a-f]+)', l)
+            if m:
+                # a dump of the chip: RegFrf as the chip holds it (a fresh handle has not read it yet)
+                frf = int(m.group(1)[12:18], 16)
             continue
         f = fields(l)
         op = f['op']
